@@ -41,6 +41,8 @@ pub fn run(cfg: &RunCfg) -> Ctx {
     all.merge(par_cases(&c, "race2", cfg.n(120, 3000), || (), |_, rng, ctx, _| race2_case(rng, ctx)));
     all.floor("race2.histories", 40);
     all.floor("race2.with_clear", 10);
+    all.merge(par_cases(&c, "race3", cfg.n(90, 2500), || (), |_, rng, ctx, _| race3_case(rng, ctx)));
+    all.floor("race3.histories", 40);
     for k in ["seq.check_found", "seq.check_not_found", "seq.watch_not_found", "seq.watch_items", "seq.stream_ended_by_clear", "seq.several_updates_after_subscription", "seq.redundant_set_then_change", "seq.set_then_clear_unpolled", "conc.histories_linearizable", "conc.watch_items"] {
         all.floor(k, 5);
     }
@@ -564,10 +566,16 @@ fn race_case(rng: &mut Rng, ctx: &mut Ctx) {
         let w = tokio::spawn(async move {
             let mut client = HealthClient::new(Loopback::new(srv, seed, 1 << 20));
             // subscribe as soon as the service exists
+            let mut tries = 0u32;
             let mut st = loop {
                 match client.watch(HealthCheckRequest { service: "r".into() }).await {
                     Ok(r) => break r.into_inner(),
                     Err(_) => tokio::task::yield_now().await,
+                }
+                tries += 1;
+                if tries > 20_000 {
+                    // both writers are long done: the service never came into existence
+                    return (Vec::new(), false);
                 }
             };
             let mut got = Vec::new();
@@ -738,6 +746,82 @@ fn race2_case(rng: &mut Rng, ctx: &mut Ctx) {
                 ),
             }
             ctx.fingerprint(format!("race2|{:?}|{:?}|k{}", matches!(a, ROp::Clear), matches!(b, ROp::Clear), k.min(131) / 4), true);
+        }
+    }
+}
+
+
+/// A registered service; a Watch call is made to yield inside its handler (budget burnt before the
+/// call) while a writer sets a new status.  Whatever the order, the watcher must end up reporting
+/// the status that Check returns afterwards.
+fn race3_case(rng: &mut Rng, ctx: &mut Ctx) {
+    let kw = rng.urange(108, 132);
+    let kb = rng.urange(0, 3);
+    let s0 = wire(st_of(rng.u64()));
+    let y = wire(st_of(rng.u64()));
+    ctx.begin("race3", json!({"budget_burned_before_watch": kw, "initial": s0, "writer_sets": y}));
+    let rt = tokio::runtime::Builder::new_current_thread().enable_all().start_paused(true).build().expect("verif-harness-bug: rt");
+    let (reporter, server) = tonic_health::server::health_reporter();
+    let seed = rng.u64();
+    let to_status = |w: i32| match w {
+        0 => ServingStatus::Unknown,
+        1 => ServingStatus::Serving,
+        _ => ServingStatus::NotServing,
+    };
+    let out: Result<(Vec<i32>, bool, Option<i32>), String> = rt.block_on(async move {
+        reporter.set_service_status("r", to_status(s0)).await;
+        let srv = server.clone();
+        let w = tokio::spawn(async move {
+            let mut client = HealthClient::new(Loopback::new(srv, seed, 1 << 20));
+            burn_budget(kw).await;
+            let mut st = match client.watch(HealthCheckRequest { service: "r".into() }).await {
+                Ok(r) => r.into_inner(),
+                Err(e) => return Err(format!("watch on a registered service failed: {}", e)),
+            };
+            let mut got = Vec::new();
+            let mut ended = false;
+            loop {
+                match tokio::time::timeout(std::time::Duration::from_millis(200), st.message()).await {
+                    Ok(Ok(Some(m))) => got.push(m.status),
+                    Ok(_) => {
+                        ended = true;
+                        break;
+                    }
+                    Err(_) => break,
+                }
+            }
+            Ok((got, ended))
+        });
+        let rb = reporter.clone();
+        let b = tokio::spawn(async move {
+            burn_budget(kb).await;
+            rb.set_service_status("r", to_status(y)).await;
+        });
+        let _ = b.await;
+        let (got, ended) = w.await.map_err(|e| e.to_string())??;
+        let mut client = HealthClient::new(Loopback::new(server.clone(), seed, 1 << 20));
+        let fin = client.check(HealthCheckRequest { service: "r".into() }).await.ok().map(|r| r.get_ref().status);
+        Ok((got, ended, fin))
+    });
+    drop(rt);
+    match out {
+        Err(e) => ctx.violation("race3-setup", e),
+        Ok((got, ended, fin)) => {
+            ctx.count("race3.histories");
+            if fin != Some(y) {
+                ctx.violation("check-stale", format!("Check returned {:?} after set({})", fin, y));
+            }
+            if ended {
+                ctx.violation("watch-ended-while-registered", format!("the stream ended although nobody cleared the service (reports {:?})", got));
+            }
+            if let Some(bad) = got.iter().find(|v| **v != s0 && **v != y) {
+                ctx.violation("watch-reported-unset-status", format!("reported {} which was never set (initial {}, set {})", bad, s0, y));
+            }
+            if !ended && got.last().copied() != Some(y) {
+                ctx.violation("watch-stale", format!("a Watch call overlapping set({}) reported {:?} and then went quiet while the status is {:?} (budget burnt before the call: {})", y, got, fin, kw));
+            }
+            ctx.distinct("race3_outcomes", &format!("{:?}", got));
+            ctx.fingerprint(format!("race3|k{}", kw), true);
         }
     }
 }
